@@ -286,6 +286,12 @@ class Module:
         else:
             self.all_ = names
 
+    def global_writes(self) -> set:
+        """Module-level names some function declares ``global`` (they are rebound at run time)."""
+        if not hasattr(self, '_gw'):
+            self._gw = {n for g in ast.walk(self.tree) if isinstance(g, ast.Global) for n in g.names}
+        return self._gw
+
     def public_names(self) -> List[str]:
         if self.all_ is not None:
             return list(self.all_)
